@@ -162,6 +162,7 @@ UNIT = {
         {"kind": "struct", "file": I, "name": "Interpreter", "attrs": "#[verifier::reject_recursive_types(R)]",
          "rewrites": [("X14", r"lib_loader: LibraryLoader<'a, R>,\s*imported_library: HashSet<LibraryName>,", "", 1, "S"),
                       ("X14", r"import_end: bool,[^\n]*\n\s*pub program_directory: Option<PathBuf>,", "", 1, "S"),
+                      ("X14", r"(?://[^\n]*\n\s*)?lib_instances: HashMap<LibraryName, Library<R>>,", "", 0, "S"),
                       ("X14", r"_marker: PhantomData<R>,", "_marker: PhantomData<&'a R>,", 1)]},
         {"kind": "impl", "file": I, "impl": r"^impl<'a, R: RealNumberInternalTrait> Interpreter<'a, R>$",
          "methods": {"eval_library_definition": {"props": ["C13"],
